@@ -331,6 +331,31 @@ impl ContextDyn {
     }
 }
 
+// verification-only hooks: observe / preset the byte counter (off by default)
+#[cfg(feature = "verif-hooks")]
+impl<const BITS: usize> Context<BITS> {
+    /// (verification hook) return the engine byte counter as (low, high) words
+    pub fn verif_counter(&self) -> (u64, u64) {
+        (self.eng.t[0], self.eng.t[1])
+    }
+    /// (verification hook) preset the engine byte counter (low, high) words
+    pub fn verif_set_counter(&mut self, t0: u64, t1: u64) {
+        self.eng.t = [t0, t1];
+    }
+}
+
+#[cfg(feature = "verif-hooks")]
+impl ContextDyn {
+    /// (verification hook) return the engine byte counter as (low, high) words
+    pub fn verif_counter(&self) -> (u64, u64) {
+        (self.eng.t[0], self.eng.t[1])
+    }
+    /// (verification hook) preset the engine byte counter (low, high) words
+    pub fn verif_set_counter(&mut self, t0: u64, t1: u64) {
+        self.eng.t = [t0, t1];
+    }
+}
+
 // Due to limitation of const generic, we can't define finalize in the generic context, so instead
 // define support for specific known size, until the limitation is lifted
 macro_rules! context_finalize {
